@@ -271,7 +271,7 @@ class TimeModel(object):
 PARAMS_Q = [(2, 0, None, None), (2, 1, None, None), (2, 3, None, None), (2, 3, 3, None), (2, 3, None, 3), (2, 0, 3, 3), (2, 3, 2, 5),
             (3, 4, None, None), (3, 7, 5, None), (3, 0, None, 2), (3, 4, 5, 5), (2, 4, 5, 2), (3, 1, 2, 3), (2, 7, None, 0),
             (2, 0, 0, None), (3, 3, 3, 3), (2, 1, 2, 2), (3, 0, 5, 0), (2, 3, 5, None), (3, 7, None, 5), (2, 4, 3, 3), (3, 3, 2, None),
-            (2, 7, 2, 2), (3, 1, None, 3)]
+            (2, 7, 2, 2), (3, 1, None, 3), (5, 0, None, 1), (4, 3, None, 1), (5, 0, None, 2)]
 
 
 def all_params():
